@@ -607,9 +607,15 @@ def gen_layout(seed, tier, focus):
     ops = []
     nreads = ch.randint("workload", "nreads", 1, 3 if focus != "C46" else 2)
     for i in range(nreads):
-        off = ch.pick("workload", ("off", i), [0, 0, 0, 1, segk, segk + 1, size // 2, size - 1])
-        sz = ch.pick("workload", ("sz", i), [None, None, 1, segk, size])
+        off = ch.pick("workload", ("off", i), [0, 0, 0, 1, segk, segk + 1, size // 2, size - 1, max(0, segk - 1), max(0, 2 * segk - 3), 7, 17, 40, segk // 2, 97])
+        sz = ch.pick("workload", ("sz", i), [None, None, 1, segk, size, segk + 2, 2 * segk, 5])
         ops.append(["read", off, sz, ch.pick("workload", ("start", i), [0.0, 0.0, 0.01, 0.5]), False])
+    if ch.chance("workload", "guessprobe", 0.12) and segk >= 32:
+        # the first read of a fresh node starts beyond the first *guessed* segment while the file's real segments are larger
+        # than the reader's guess: the segment number computed from the guess names a real segment further right
+        g_ = ch.pick("workload", "guessprobe-g", [16, 16, 96]) if segk > 96 else 16
+        cfg["knobs"]["guess_seg"] = g_
+        ops[0] = ["read", min(size - 1, ch.pick("workload", "guessprobe-off", [g_, 2 * g_ + 1, 3 * g_ + 5, 5 * g_])), None, 0.0, False]
     if focus == "C46":
         for i in range(ch.randint("workload", "nfollow", 1, 3)):
             off = ch.pick("workload", ("foff", i), [0, 0, segk, 2 * segk, size - 1])
